@@ -27,6 +27,10 @@ type acctResult struct {
 	prefixOK   bool
 	prefixWhy  string
 	paths      int
+	absPaths   int    // feasible paths on which the function returns entry offset + something (an end position)
+	relPaths   int    // feasible paths on which the returned value does not contain the entry offset (a width)
+	absAt      string // a return of the first kind
+	relAt      string // a return of the second kind
 }
 
 func (p *Prog) fillAccounting(fn *ssa.Function, topLevel bool) acctResult {
@@ -199,6 +203,14 @@ func (p *Prog) fillAccounting(fn *ssa.Function, topLevel bool) acctResult {
 		}
 		if ret, ok := terminator(blocks[len(blocks)-1]).(*ssa.Return); ok && len(ret.Results) == 1 {
 			rv := evalLin(ret.Results[0], 0)
+			switch rv.coef["OFF"] {
+			case 0:
+				res.relPaths++
+				res.relAt = posOf(p, ret)
+			case 1:
+				res.absPaths++
+				res.absAt = posOf(p, ret)
+			}
 			if !rv.equal(S) && !rv.equal(S.sub(linAtom("OFF"))) && problemT == "" {
 				problemT = fmt.Sprintf("on a feasible path the function returns %s, the bytes emitted end at %s", rv.String(), S.String())
 			}
